@@ -12,6 +12,10 @@ NA = {
  "C16": "decision lives in methods of ContentPackCreator which cannot be constructed without spawning threads; detect branch is floating point; dedup adder is HashMap<blake3::Hash,_> (DESIGN.md section 5)",
 }
 TEXT = {
+ "C04": ("Bounded model checking of which bytes are hashed and compared: one inductive step of the real ManifestCheckStream from any state (masked exactly on bytes 38..256 of each pack-info block, nothing else altered, in step with its source), its set-up from the real PackOffsetsIter, the real CheckInfo::{new_blake3,check} with blake3 replaced by a tap + stand-in digest, and the real Pack::check of DirectoryPack, ManifestPack and ContentPack on pack states built over a symbolic body: the stream fed to the hash is exactly [0, check_info_pos), a pristine pack verifies, any single altered byte of the body or of the stored digest does not. A check that hashes a shorter range or compares nothing passes the test suite and fails here.",
+         "4 C04", "Kani/CBMC; blake3 is abstracted (tap + additive digest, collision resistance assumed); pack states are built by struct literal; O-crc accepts; the writers' side (hash computed after the header rewrite), ContentPackCreator (threads) and Container::check (HashMap) are outside"),
+ "C12": ("Bounded model checking of the pack-info block a location rewrite replaces: the real PackInfo::serialize writes 38 location-independent bytes then the length-prefixed location zero-padded to 252 bytes for locations of 0..213 bytes; the real PackInfo::parse recovers every field and consumes exactly 252 bytes whatever the location (2-byte locations range over all byte pairs: multi-byte UTF-8 accepted, invalid UTF-8 rejected); the real manifest check stream masks exactly bytes 38..256 of each block (shared with C04). Together: two manifests that differ only by a rewritten location feed identical bytes to the global check.",
+         "4 C12", "Kani/CBMC; tools::set_location itself (file I/O + HashMap) is outside: the claim is about the block codec and the mask only, and says so; its offset defect was found by reading, not by a check"),
  "C03": ("Bounded model checking of the real lookup (RangeTrait::find, both branches) over every sorted sequence of up to 6 (thorough 9) keys, every window size and offset and every probe; of the reader's byte-wise order on arrays split between inline part and store (Array::cmp/ArrayIter) against the lexicographic order of the whole value; of the reader's and writer's integer orders; and of the writer's order on arrays (prefix, value id, size) against the byte order, under exactly the id-assignment guarantee of the value stores, with all bytes, lengths, inline lengths and ids symbolic.",
          "4 C03", "Kani/CBMC; the two rayon sorts (entries, value-store ids) are assumptions: their post-conditions are taken as preconditions and shown sufficient; HashMap-based PropertyCompare/AnyBuilder and SmallVec probes are outside"),
  "C06": ("Bounded model checking, under debug and release semantics, of the code that runs before or without a checksum: assert_slice_crc on buffers shorter than a checksum, the real blind open end to end on every memory file shorter than one block, the blind open's own arithmetic and control flow for the header-at-start branch with the file length and the declared pack size fully symbolic (u64), PackHeader::parse on 60 arbitrary bytes, and region arithmetic under the callers' precondition. Every panic, overflow or out-of-bounds index on these paths is a failed check; counterexamples are replayed natively in the matching profile. Narrow by design: parsers that only see CRC-verified bytes are outside the property's scope.",
